@@ -257,6 +257,9 @@ func c16Ctx(env *c16Env) *plush.Context {
 	})
 	ctx.Set("ident", func(x interface{}) interface{} { return x })
 	ctx.Set("mm", map[string]interface{}{"present": 1})
+	rec := newT("r")
+	rec.Next = &T{Name: "n"}
+	ctx.Set("rec", rec)
 	ctx.Set("xs", []interface{}{"x0", "x1", "x2", "x3", "x4", "x5", "x6", "x7", "x8", "x9"})
 	return ctx
 }
@@ -462,6 +465,13 @@ func c16Run(b *core.B) {
 		{"body-let-shadows-parameter", `<% let f = fn(a) { let a = a + 1
  return a } %><% let a = 10 %><%= f(a) %>,<%= a %>,<%= f(1) %>`, "11,10,2"},
 		{"rebinding-a-function-name", `<% let f = fn(n) { return n + 1 } %><%= f(1) %><% let f = fn(n) { return n + 100 } %>|<%= f(1) %>`, "2|101"},
+		// calling the result of a call / of an index directly: what the callee expression looks like
+		// (dots in string or float literals, in keys, in paths) must not matter
+		{"call-result-called-directly", `<% let mk = fn(a) { return fn(x) { return x + 10 } } %><%= mk("ab")(1) %>|<%= mk("a.b")(1) %>|<%= mk(1.5)(2) %>|<%= mk("a.b.c")(3) %>`, "11|11|12|13"},
+		{"hash-element-called-directly", `<% let inc = fn(n) { return n + 1 } %><% let h = {"k": inc, "a.b": inc, "1.5": inc} %><%= h["k"](1) %>|<%= h["a.b"](2) %>|<%= h["1.5"](3) %>`, "2|3|4"},
+		{"array-element-called-directly", `<% let inc = fn(n) { return n + 1 } %><% let a = [inc, inc] %><%= a[0](1) %>|<%= a[3 - 2](2) %>`, "2|3"},
+		{"call-result-called-directly-with-path-argument", `<% let mk = fn(a) { return fn(x) { return x + 10 } } %><%= mk(rec.Name)(1) %>|<%= mk(rec.Next.Name)(rec.N) %>`, "11|17"},
+		{"chain-of-calls", `<% let one = fn() { return 1 } %><% let mk = fn() { return one } %><%= mk()() %>|<%= len("" + mk()()) %>`, "1|1"},
 		{"function-values-in-a-hash-called-in-turn", `<% let a = fn(n) { return "a" + n } %><% let b = fn(n) { return "b" + n } %><% let h = {x: a, y: b} %><% let g = h["x"] %><%= g(1) %><% g = h["y"] %><%= g(2) %>`, "a1b2"},
 	}
 	for d := 0; d <= 12; d++ {
